@@ -2,7 +2,7 @@ SPECIFICATION Spec
 CONSTANTS
   MaxRes = 2
   MaxBonds = 2
-  BondTypes = {0, 1, 2, 8}
+  BondTypes = {1, 2, 8}
 INVARIANT InvRoundTrip
 INVARIANT InvReasonsComplete
 CHECK_DEADLOCK FALSE
